@@ -469,6 +469,105 @@ fn enc_out<VI: IdpfValue, VL: IdpfValue>(o: &IdpfOutputShare<VI, VL>) -> Vec<u8>
     out
 }
 
+thread_local! {
+    static EVAL_COUNTER: Cell<u64> = const { Cell::new(0) };
+}
+
+/// The same bits as `IdpfInput::from_bools(prefix)`, but stored at bit offset `off` of the
+/// underlying buffer (junk bits before them).
+fn unaligned_input(prefix: &[bool], off: usize) -> IdpfInput {
+    use bitvec::prelude::*;
+    let mut bv: BitVec<usize, Lsb0> = BitVec::new();
+    for i in 0..off {
+        bv.push(i % 3 != 1);
+    }
+    for b in prefix {
+        bv.push(*b);
+    }
+    IdpfInput::from(BitBox::from_bitslice(&bv[off..]))
+}
+
+/// One long-lived `Idpf` instance used for SEVERAL reports (generated under different contexts
+/// and/or nonces): evaluations must reconstruct each report's own programmed values.
+fn shared_instance(ctx: &mut Ctx) {
+    let mut rng = ctx.rng("c06-shared-instance");
+    let rounds = ctx.budget(6, 200);
+    for round in 0..rounds {
+        let bits = 2 + rng.usize_below(6);
+        let idpf = Idpf::<Field64, Field255>::new((), ());
+        let base_ctx = rng.bytes(8);
+        let base_nonce = rng.bytes(16);
+        // (ctx, nonce) variants: same nonce / other ctx, same ctx / other nonce, both same, both other
+        let mut variants: Vec<(Vec<u8>, Vec<u8>)> = vec![(base_ctx.clone(), base_nonce.clone())];
+        let mut c2 = base_ctx.clone();
+        c2[0] ^= 1;
+        variants.push((c2.clone(), base_nonce.clone()));
+        let mut n2 = base_nonce.clone();
+        n2[15] ^= 0x80;
+        variants.push((base_ctx.clone(), n2.clone()));
+        variants.push((c2, n2));
+        variants.push((base_ctx.clone(), base_nonce.clone()));
+        let mut reports = vec![];
+        for (vctx, nonce) in &variants {
+            let input: Vec<bool> = (0..bits).map(|_| rng.bool()).collect();
+            let inner: Vec<Field64> = (0..bits - 1).map(|_| rand_field::<Field64>(&mut rng)).collect();
+            let leaf: Field255 = rand_field::<Field255>(&mut rng);
+            match catch(|| idpf.gen(&IdpfInput::from_bools(&input), inner.clone(), leaf, vctx, nonce)) {
+                Ok(Ok((public, keys))) => reports.push((input, inner, leaf, vctx.clone(), nonce.clone(), public, keys)),
+                _ => {
+                    ctx.inconclusive("shared-instance: gen failed");
+                    return;
+                }
+            }
+        }
+        // Evaluate the reports one after the other (and once more in reverse) on the SAME instance.
+        let order: Vec<usize> = (0..reports.len()).chain((0..reports.len()).rev()).collect();
+        for &ri in &order {
+            let (input, inner, leaf, vctx, nonce, public, keys) = &reports[ri];
+            for plen in 1..=bits {
+                for which in 0..2 {
+                    let mut prefix: Vec<bool> = input[..plen].to_vec();
+                    if which == 1 {
+                        let k = rng.usize_below(plen);
+                        prefix[k] = !prefix[k];
+                    }
+                    let on_path = which == 0;
+                    let p = IdpfInput::from_bools(&prefix);
+                    let mut outs = vec![];
+                    for party in 0..2 {
+                        ctx.eval();
+                        match catch(|| idpf.eval(party, public, &keys[party], &p, vctx, nonce, &mut NoCache::new())) {
+                            Ok(Ok(o)) => outs.push(o),
+                            _ => {}
+                        }
+                    }
+                    if outs.len() != 2 {
+                        continue;
+                    }
+                    let want = if plen == bits {
+                        IdpfOutputShare::<Field64, Field255>::Leaf(if on_path { *leaf } else { <Field255 as FieldElement>::zero() })
+                    } else {
+                        IdpfOutputShare::<Field64, Field255>::Inner(if on_path { inner[plen - 1] } else { <Field64 as FieldElement>::zero() })
+                    };
+                    let b = outs.pop().unwrap();
+                    let a = outs.pop().unwrap();
+                    let sum = match catch(|| a.merge(b)) {
+                        Ok(Ok(s)) => s,
+                        _ => continue,
+                    };
+                    ctx.count("shared_instance_reconstructions");
+                    if enc_out(&sum) != enc_out(&want) {
+                        ctx.violation("shared-instance|reconstruction", "on a long-lived Idpf instance that evaluated another report before, the two shares no longer sum to the programmed value / zero",
+                            json!({"bits": bits, "report_index": ri, "prefix": bits_str(&prefix), "on_path": on_path, "ctx": hex(vctx), "nonce": hex(nonce),
+                                   "other_reports": variants.iter().map(|(c, n)| format!("{}/{}", hex(c), hex(n))).collect::<Vec<_>>()}));
+                    }
+                }
+            }
+        }
+        ctx.nontrivial(digest(&[b"shared-instance", &round.to_le_bytes(), &base_nonce]));
+    }
+}
+
 struct Inst<VI: TV, VL: TV>
 where
     VI::ValueParameter: Clone,
@@ -572,7 +671,18 @@ where
 
     /// One monitored `Idpf::eval`. Errors and panics on a valid prefix are violations.
     fn eval(&self, ctx: &mut Ctx, party: usize, prefix: &[bool], cache: &mut dyn IdpfCache, cache_family: &str) -> Option<IdpfOutputShare<VI, VL>> {
-        let p = IdpfInput::from_bools(prefix);
+        // Half of the evaluations present the prefix as a bit slice that starts in the middle of
+        // a storage word (a legitimate `IdpfInput`, e.g. a sub-slice of a packed buffer): cache keys
+        // must be independent of the alignment of the caller's bits.
+        let n = EVAL_COUNTER.with(|c| {
+            c.set(c.get().wrapping_add(1));
+            c.get()
+        });
+        let p = if n % 2 == 0 {
+            IdpfInput::from_bools(prefix)
+        } else {
+            unaligned_input(prefix, 1 + (n as usize / 2) % 63)
+        };
         let r = catch(|| self.idpf.eval(party, &self.public, &self.keys[party], &p, &self.vctx, &self.nonce, cache));
         ctx.eval();
         match r {
@@ -1056,6 +1166,7 @@ fn dispatch(ctx: &mut Ctx, cfg: usize, plan: &Plan) {
 }
 
 pub fn run(ctx: &mut Ctx) {
+    shared_instance(ctx);
     // RingBufferCache::new(0): the constructor clamps the capacity to 1 (no documented panic);
     // it is part of KINDS and runs under the panic monitor.
 
